@@ -25,16 +25,22 @@ import Asn1Verif.Front.ResolveAllLemmas
     a name whose value is not an integer where an integer is needed ⇒ `FailedToParseLiteral`;
     `resolved_*_sound`: a successfully resolved bound is the literal itself or the integer found
     under the name — never anything else.
-  * `cyclic_import_diverges`: the import chase of the real code has no visited set; on a module
-    that imports an undefined name from itself the model's chase runs out of fuel (= unbounded
-    recursion, stack overflow of the real resolver).
+  * `cyclic_import_rejected`: the import chase follows at most `scope.len()` imports (repaired
+    code; before, it had no bound and overflowed the stack): a name that no loaded module
+    defines is not found however the imports are wired, cycles included, and its use is
+    `FailedToResolveReference` (`cyclic_import_self`, `cyclic_import_pair`: the two witnesses of
+    the former finding, evaluated).
+  * `size_negative_rejected`: a *negative* referenced value used as SIZE bound is refused with
+    `FailedToResolveReference` (repaired code: `usize::try_from`; before, `as usize` wrapped it
+    to 2^64-1), which is also what the literal text `SIZE(-1)` gets (`-1` does not parse as a
+    number and is looked up as a name).  `resolved_Size_sound`: a resolved SIZE bound is the
+    literal or the non-negative integer found under the name, never anything else.
 
-  Side conditions, all necessary for the code as it is, each with a counterexample:
-  * SIZE bounds: a *negative* referenced value has no literal form (`SIZE(-1)` does not parse as a
-    number); the reference is cast `as usize` — `size_negative_wraps`.  `substSizeAtom` therefore
-    leaves such a reference alone.
+  Side condition, necessary for the code as it is:
   * DEFAULT names are looked up among the variants of a referenced ENUMERATED type first, so a
     table name must not clash with such a variant (`SafeTy`; the names are "fresh").
+  `substSizeAtom` leaves a reference to a negative value alone (it has no literal form); both
+  sides of `subst_Size` are then the same refusal.
 
   `subst` keeps the scope `S` of siblings fixed; `subst_all` is the statement for
   `MultiModuleResolver::try_resolve_all` itself: *every* loaded module replaced by its literal
@@ -42,12 +48,12 @@ import Asn1Verif.Front.ResolveAllLemmas
   `load_order` this is the property's quantifier "for all schemas, all subsets of literals, same
   or sibling module with/without OID, all load orders".
 
-  Fuel of the import chase (`scope.length + 1` steps): `chase_fuel_enough` — it comes back
-  whenever the chase is acyclic, witnessed by a rank ≤ `scope.length` that decreases along every
-  step; `chase_fuel_mono` — more fuel never changes a result; in the other direction
-  `cyclic_import_diverges` shows the divergence for every amount of fuel.  (That a chase still
-  running after `scope.length + 1` steps must have revisited a module — pigeonhole — is argued
-  in the header of `Front/Resolve.lean`, not proved.)
+  The import chase: `chase_total` / `chase_total_definition` — it comes back for EVERY module,
+  scope and name (no acyclicity hypothesis; the full statement `ResolverTotal` of C14).
+  `chase_bound_not_observable` — the bound of `scope.len()` hops never cuts an acyclic chase
+  short: when a rank ≤ `scope.length` decreases along every step, every larger budget gives the
+  same answer.  (That a chase which wants more than `scope.len()` hops must have revisited a
+  module — pigeonhole — is argued in the header of `Front/Resolve.lean`, not proved.)
 -/
 namespace Asn1Verif.Props.C12
 open Asn1Verif Asn1Verif.Front.Syn
@@ -60,9 +66,9 @@ theorem subst_Integer (sc : Scope) (σ : Sigma) (ha : Agrees sc σ) (r : Range U
   resolveRange_subst sc σ ha r
 
 /-- SIZE constraints (including `reconsider_constraints` afterwards) -/
-theorem subst_Size (sc : Scope) (σ : Sigma) (ha : Agrees sc σ) (h64 : SigmaI64 σ) (s : Size USz) :
+theorem subst_Size (sc : Scope) (σ : Sigma) (ha : Agrees sc σ) (s : Size USz) :
     sc.resolveSize (substSize σ s) = sc.resolveSize s :=
-  resolveSize_subst sc σ ha h64 s
+  resolveSize_subst sc σ ha s
 
 /-- DEFAULT values on a component of (resolved) type `ty` -/
 theorem subst_Default (sc : Scope) (σ : Sigma) (ha : Agrees sc σ) (ty : RTy) (uty : UTy)
@@ -72,21 +78,21 @@ theorem subst_Default (sc : Scope) (σ : Sigma) (ha : Agrees sc σ) (ty : RTy) (
   resolveDefault_subst sc σ ha ty uty hty d hs
 
 /-- every nested type -/
-theorem subst_Type (sc : Scope) (σ : Sigma) (ha : Agrees sc σ) (h64 : SigmaI64 σ) (t : UTy)
+theorem subst_Type (sc : Scope) (σ : Sigma) (ha : Agrees sc σ) (t : UTy)
     (hs : SafeTy sc σ t) : sc.resolveTy (substTy σ t) = sc.resolveTy t :=
-  resolveTy_subst sc σ ha h64 t hs
+  resolveTy_subst sc σ ha t hs
 
 /-- **subst**: module `A` with value references, loaded together with the modules `S`, resolves
     to the same model as its literal variant -/
 theorem subst (σ : Sigma) (A : UModule) (S : List UModule) (ha : Agrees ⟨A, S⟩ σ)
-    (h64 : SigmaI64 σ) (hs : SafeModule ⟨A, S⟩ σ A) :
+    (hs : SafeModule ⟨A, S⟩ σ A) :
     Scope.tryResolve ⟨substModule σ A, S⟩ = Scope.tryResolve ⟨A, S⟩ :=
-  tryResolve_substModule σ A S ha h64 hs
+  tryResolve_substModule σ A S ha hs
 
 /-- **subst** for `try_resolve_all`: all loaded modules `S` replaced by their literal variants
     (`τ m` = the table used for module `m`; it may cover any subset of the names `m` can see) -/
 theorem subst_all (τ : UModule → Sigma) (S : List UModule)
-    (hall : ∀ m ∈ S, Agrees ⟨m, S⟩ (τ m) ∧ SigmaI64 (τ m) ∧ SafeModule ⟨m, S⟩ (τ m) m) :
+    (hall : ∀ m ∈ S, Agrees ⟨m, S⟩ (τ m) ∧ SafeModule ⟨m, S⟩ (τ m) m) :
     tryResolveAll (S.map (substAllWith τ)) = tryResolveAll S :=
   tryResolveAll_substAll τ S hall
 
@@ -106,9 +112,9 @@ theorem agrees_sigmaOf (sc : Scope) : Agrees sc (sigmaOf sc) := by
 
 /-- stage 1: one module without imports, `Model::try_resolve` on both sides -/
 theorem subst_single_module (σ : Sigma) (A : UModule) (hnoimp : A.imports = [])
-    (ha : Agrees ⟨A, [A]⟩ σ) (h64 : SigmaI64 σ) (hs : SafeModule ⟨A, [A]⟩ σ A) :
+    (ha : Agrees ⟨A, [A]⟩ σ) (hs : SafeModule ⟨A, [A]⟩ σ A) :
     tryResolve (substModule σ A) = tryResolve A := by
-  have h1 := tryResolve_substModule σ A [A] ha h64 hs
+  have h1 := tryResolve_substModule σ A [A] ha hs
   -- the scope list is never consulted: no imports
   have hscope : ScopeEquiv ⟨substModule σ A, [A]⟩ ⟨substModule σ A, [substModule σ A]⟩ := by
     have himp : (substModule σ A).imports = [] := hnoimp
@@ -260,10 +266,10 @@ theorem resolved_Integer_sound (sc : Scope) (l : URange) (i : Int) (h : sc.resol
         cases hval : vr.value <;> simp [hv, hval, LiteralValue.toInteger] at h
         rw [h]
 
-/-- … and for a SIZE bound the literal itself or the found integer cast with `as usize` -/
+/-- … and for a SIZE bound the literal itself or the found integer, which is not negative -/
 theorem resolved_Size_sound (sc : Scope) (l : USz) (k : Nat) (h : sc.resolveSizeVal l = .ok k) :
     l = .lit k ∨ ∃ n vr i, l = .ref n ∧ sc.valueReference n = .ok (some vr) ∧
-      vr.value = .integer i ∧ k = i64AsUsize i := by
+      vr.value = .integer i ∧ 0 ≤ i ∧ k = i.toNat := by
   cases l with
   | lit j =>
     left
@@ -280,51 +286,115 @@ theorem resolved_Size_sound (sc : Scope) (l : USz) (k : Nat) (h : sc.resolveSize
       | some vr =>
         cases hval : vr.value <;> simp [hv, hval, LiteralValue.toInteger] at h
         rename_i i
-        exact ⟨n, vr, i, rfl, hv, hval, h.symm⟩
+        by_cases h0 : 0 ≤ i
+        · rw [usizeTryFrom_nonneg i h0] at h
+          simp only [Except.ok.injEq] at h
+          exact ⟨n, vr, i, rfl, hv, hval, h0, h.symm⟩
+        · rw [usizeTryFrom_neg i (by omega)] at h
+          cases h
 
-/-! ### side conditions are needed; the cyclic import -/
+/-! ### negative SIZE bounds; cyclic imports (both repaired in the code) -/
 
-/-- `n INTEGER ::= -1`, `SIZE(n)`: the reference resolves to 2^64-1; there is no literal variant -/
+/-- **a negative value under a SIZE bound is refused** (`usize::try_from`), with the error the
+    literal text `SIZE(-1)` gets -/
+theorem size_negative_rejected (sc : Scope) (n : String) (vr : UValueReference) (i : Int)
+    (h : sc.valueReference n = .ok (some vr)) (hv : vr.value = .integer i) (hneg : i < 0) :
+    sc.resolveSizeVal (.ref n) = .error .failedToResolveReference := by
+  rw [resolveSizeVal_ref_found sc n vr i h hv, usizeTryFrom_neg i hneg]
+
+/-- `n INTEGER ::= -1`, `A ::= OCTET STRING (SIZE(n))` (the witness of the former finding
+    `resolve.size_negative_wraps`: it resolved to SIZE(2^64-1)) -/
 def cexNeg : UModule :=
   ⟨"Neg", none, [], [⟨"A", none, .octetString (.fix (.ref "n") false)⟩],
     [⟨"n", .integer ⟨none, none, false⟩ [], .integer (-1)⟩]⟩
 
-theorem size_negative_wraps :
-    Scope.resolveSizeVal ⟨cexNeg, [cexNeg]⟩ (.ref "n") = .ok 18446744073709551615 := by decide
+/-- the same module with the literal text `SIZE(-1)`: the parser reads `-1` as a name -/
+def cexNegLit : UModule :=
+  ⟨"Neg", none, [], [⟨"A", none, .octetString (.fix (.ref "-1") false)⟩],
+    [⟨"n", .integer ⟨none, none, false⟩ [], .integer (-1)⟩]⟩
 
-/-- `IMPORTS ghost FROM Selfish;` inside `Selfish`, `A ::= INTEGER (0..ghost)` -/
+/-- the error class of a result (the models have no decidable equality; the classes do) -/
+def errOf {α : Type} : FR α → Option FErr
+  | .error e => some e
+  | .ok _ => none
+
+theorem size_negative_witness :
+    Scope.resolveSizeVal ⟨cexNeg, [cexNeg]⟩ (.ref "n") = .error .failedToResolveReference ∧
+    errOf (tryResolve cexNeg) = some .failedToResolveReference ∧
+    errOf (tryResolve cexNegLit) = some .failedToResolveReference := by decide
+
+/-- **a cyclic import is an unresolved reference**: a name that neither the module nor any
+    loaded module defines is not found — however the imports are wired, in particular when they
+    lead in a circle — and its use as a bound is `FailedToResolveReference` -/
+theorem cyclic_import_rejected (A : UModule) (S : List UModule) (n : String)
+    (hA : (A.valueReferences.find? fun vr => vr.name == n) = none)
+    (hS : ∀ m ∈ S, (m.valueReferences.find? fun vr => vr.name == n) = none) :
+    (Scope.mk A S).valueReference n = .ok none ∧
+    (Scope.mk A S).resolveInt (.ref n) = .error .failedToResolveReference ∧
+    (Scope.mk A S).resolveSizeVal (.ref n) = .error .failedToResolveReference ∧
+    (Scope.mk A S).resolveConst (.ref n) = .error .failedToResolveReference := by
+  have h : (Scope.mk A S).valueReference n = .ok none :=
+    valueReference_none_of_undefined S n hS (chaseFuel S) A hA
+  exact ⟨h, resolveInt_unresolved _ n h, resolveSizeVal_unresolved _ n h,
+    resolveConst_unresolved _ n h⟩
+
+/-- … likewise for a type name (`FailedToResolveType`) -/
+theorem cyclic_import_rejected_type (A : UModule) (S : List UModule) (n : String)
+    (hA : (A.definitions.find? fun d => d.name == n) = none)
+    (hS : ∀ m ∈ S, (m.definitions.find? fun d => d.name == n) = none) :
+    (Scope.mk A S).definition n = .ok none ∧
+    errOf ((Scope.mk A S).resolveTypeRef n) = some .failedToResolveType := by
+  have h : (Scope.mk A S).definition n = .ok none :=
+    definition_none_of_undefined S n hS (chaseFuel S) A hA
+  refine ⟨h, ?_⟩
+  simp [Scope.resolveTypeRef, h, errOf]
+
+/-- `IMPORTS ghost FROM Selfish;` inside `Selfish`, `A ::= INTEGER (0..ghost)` (the witness of
+    the former finding `resolve.cyclic_import_overflow`: stack overflow) -/
 def cexSelf : UModule :=
   ⟨"Selfish", none, [⟨["ghost"], "Selfish", none⟩],
     [⟨"A", none, .integer ⟨some (.lit 0), some (.ref "ghost"), false⟩ []⟩], []⟩
 
-/-- the chase never ends (the real resolver overflows its stack) -/
-theorem cyclic_import_diverges :
-    Scope.valueReference ⟨cexSelf, [cexSelf]⟩ "ghost" = .error .fuel ∧
-    (∀ fuel, valueReference fuel cexSelf [cexSelf] "ghost" = .error .fuel) := by
-  refine ⟨by rfl, ?_⟩
-  intro fuel
-  induction fuel with
-  | zero => rfl
-  | succ f ih =>
-    rw [valueReference]
-    have h1 : cexSelf.valueReferences.find? (fun vr => vr.name == "ghost") = none := by decide
-    have h2 : modelWithImportedItem cexSelf [cexSelf] "ghost" = some cexSelf := by
-      simp [modelWithImportedItem, cexSelf]
-    rw [h1, h2]
-    exact ih
+/-- `Ping` imports `ghost` from `Pong`, `Pong` imports it from `Ping`, nobody defines it -/
+def cexPing : UModule :=
+  ⟨"Ping", none, [⟨["ghost"], "Pong", none⟩],
+    [⟨"A", none, .integer ⟨some (.lit 0), some (.ref "ghost"), false⟩ []⟩], []⟩
+def cexPong : UModule :=
+  ⟨"Pong", none, [⟨["ghost"], "Ping", none⟩], [⟨"B", none, .integer ⟨none, none, false⟩ []⟩], []⟩
 
-/-- more fuel never changes a chase that came back -/
-theorem chase_fuel_mono (S : List UModule) (n : String) (m : UModule)
-    (r : Option UValueReference) (f f' : Nat) (hle : f ≤ f')
-    (h : valueReference f m S n = .ok r) : valueReference f' m S n = .ok r :=
-  valueReference_fuel_le S n m r f f' hle h
+/-- the chase of the self-import ends with "not found" for every budget, and the module is
+    refused with `FailedToResolveReference` -/
+theorem cyclic_import_self :
+    (∀ k, valueReference k cexSelf [cexSelf] "ghost" = .ok none) ∧
+    Scope.valueReference ⟨cexSelf, [cexSelf]⟩ "ghost" = .ok none ∧
+    errOf (tryResolve cexSelf) = some .failedToResolveReference := by
+  refine ⟨fun k => ?_, by rfl, by decide⟩
+  exact valueReference_none_of_undefined [cexSelf] "ghost" (by decide) k cexSelf (by decide)
 
-/-- the supplied fuel is enough when the imports followed for `n` are acyclic -/
-theorem chase_fuel_enough (A : UModule) (S : List UModule) (n : String) (rank : UModule → Nat)
-    (hdec : ∀ m m', (m.valueReferences.find? fun vr => vr.name == n) = none →
+/-- the two-module cycle, in both load orders -/
+theorem cyclic_import_pair :
+    errOf (tryResolveAll [cexPing, cexPong]) = some .failedToResolveReference ∧
+    errOf (tryResolveAll [cexPong, cexPing]) = some .failedToResolveReference := by decide
+
+/-- **the import chase always comes back** — for every module, scope and name -/
+theorem chase_total (A : UModule) (S : List UModule) (n : String) :
+    ∃ r, (Scope.mk A S).valueReference n = .ok r :=
+  valueReference_total S n (chaseFuel S) A
+
+theorem chase_total_definition (A : UModule) (S : List UModule) (n : String) :
+    ∃ r, (Scope.mk A S).definition n = .ok r :=
+  definition_total S n (chaseFuel S) A
+
+/-- **the bound does not cut an acyclic chase short**: when the imports followed for `n` are
+    acyclic (a rank decreases along every step) and the rank of the start module is at most the
+    number of loaded modules, every budget from `scope.len()` hops on gives the same answer -/
+theorem chase_bound_not_observable (A : UModule) (S : List UModule) (n : String)
+    (rank : UModule → Nat)
+    (hdec : ∀ m ∈ A :: S, ∀ m', (m.valueReferences.find? fun vr => vr.name == n) = none →
       modelWithImportedItem m S n = some m' → rank m' < rank m)
-    (hrank : rank A ≤ S.length) : ∃ r, (Scope.mk A S).valueReference n = .ok r :=
-  valueReference_of_rank S n rank hdec (S.length + 1) A (by omega)
+    (hrank : rank A ≤ S.length) (k : Nat) (hk : chaseFuel S ≤ k) :
+    valueReference k A S n = (Scope.mk A S).valueReference n :=
+  valueReference_le_of_rank A S n rank hdec (chaseFuel S) k (by unfold chaseFuel; omega) hk
 
 /-! ### non-vacuity -/
 
@@ -352,15 +422,6 @@ example : Agrees ⟨sample, [sample]⟩ sampleSigma := by
       exact ⟨⟨"hi", .integer ⟨none, none, false⟩ [], .integer 9⟩, by rfl, by simpa using h⟩
     · cases h
 
-example : SigmaI64 sampleSigma := by
-  intro n i h
-  simp only [sampleSigma] at h
-  split at h
-  · injection h with h; injection h with h; omega
-  · split at h
-    · injection h with h; injection h with h; omega
-    · cases h
-
 example : SafeModule ⟨sample, [sample]⟩ sampleSigma sample := by
   constructor
   · intro v hv
@@ -379,5 +440,48 @@ example : AllUnambiguous [cexX, cexY] := by
   intro m hm imp himp
   simp at hm
   rcases hm with rfl | rfl <;> simp [cexX, cexY] at himp
+
+-- `size_negative_rejected`: the hypotheses hold for the witness
+example : ∃ vr, Scope.valueReference ⟨cexNeg, [cexNeg]⟩ "n" = .ok (some vr) ∧
+    vr.value = .integer (-1) ∧ (-1 : Int) < 0 :=
+  ⟨⟨"n", .integer ⟨none, none, false⟩ [], .integer (-1)⟩, by rfl, rfl, by decide⟩
+-- … while a non-negative value resolves as before
+example : Scope.resolveSizeVal ⟨sample, [sample]⟩ (.ref "hi") = .ok 9 := by decide
+
+-- `cyclic_import_rejected`: the hypotheses hold for the two-module cycle
+example : (cexPing.valueReferences.find? fun vr => vr.name == "ghost") = none ∧
+    ∀ m ∈ [cexPing, cexPong], (m.valueReferences.find? fun vr => vr.name == "ghost") = none := by
+  decide
+
+/-- `Top` imports `v` from `Mid`, `Mid` from `Leaf`, `Leaf` defines it -/
+def chainTop : UModule := ⟨"Top", none, [⟨["v"], "Mid", none⟩], [], []⟩
+def chainMid : UModule := ⟨"Mid", none, [⟨["v"], "Leaf", none⟩], [], []⟩
+def chainLeaf : UModule :=
+  ⟨"Leaf", none, [], [], [⟨"v", .integer ⟨none, none, false⟩ [], .integer 7⟩]⟩
+def chainRank (m : UModule) : Nat :=
+  if m.name = "Top" then 2 else if m.name = "Mid" then 1 else 0
+
+-- `chase_bound_not_observable`: the hypotheses hold for the chain (all three modules loaded,
+-- the rank of `Top` is 2 ≤ 3), and the value is found through two imports
+example : (∀ m ∈ chainTop :: [chainLeaf, chainMid, chainTop], ∀ m',
+      (m.valueReferences.find? fun vr => vr.name == "v") = none →
+      modelWithImportedItem m [chainLeaf, chainMid, chainTop] "v" = some m' →
+      chainRank m' < chainRank m) ∧ chainRank chainTop ≤ [chainLeaf, chainMid, chainTop].length := by
+  refine ⟨?_, by decide⟩
+  intro m hm m' hfind himp
+  simp only [List.mem_cons, List.not_mem_nil, or_false] at hm
+  rcases hm with rfl | rfl | rfl | rfl
+  · have : m' = chainMid := by
+      simpa [modelWithImportedItem, chainTop, chainMid, chainLeaf] using himp.symm
+    subst this; decide
+  · exact absurd hfind (by decide)
+  · have : m' = chainLeaf := by
+      simpa [modelWithImportedItem, chainTop, chainMid, chainLeaf] using himp.symm
+    subst this; decide
+  · have : m' = chainMid := by
+      simpa [modelWithImportedItem, chainTop, chainMid, chainLeaf] using himp.symm
+    subst this; decide
+example : Scope.valueOf ⟨chainTop, [chainLeaf, chainMid, chainTop]⟩ "v" = .ok (some (.integer 7)) := by
+  decide
 
 end Asn1Verif.Props.C12
